@@ -268,14 +268,16 @@ func Generate(r *rng.R, tier string, n int, emit func(*common.Case)) {
 		cr = rng.New(sub)
 		var in Input
 		switch k := i % 20; {
-		case k < 9:
+		case k < 8:
 			in = genStructuredLine(cr)
-		case k < 12:
+		case k < 11:
 			in = genSoupLine(cr)
-		case k < 15:
+		case k < 13:
 			in = genMode(cr)
-		case k < 18:
+		case k < 16:
 			in = genList(cr)
+		case k < 17:
+			in = genProc(cr)
 		default:
 			in = genRecipe(cr)
 		}
